@@ -491,3 +491,30 @@ for _u in _c19["UNITS"]:
         _u.template = "../C19/" + _u.template
         UNITS.append(_u)
 META["trusted_base"] = list(META.get("trusted_base", [])) + ["units c19.* are the C19 units of the same name (specs/C19/state.c, state.h) with their trusted base"]
+
+
+# ---- yield_while_count / yield_while_count_timeout (added by main after seeded change C05-6 was missed) ----
+TT_HPP = "libs/pika/execution_base/include/pika/execution_base/this_thread.hpp"
+YWC_RULES = [
+    Sub(r"\bauto (\w+) = allow_timed_suspension \?\s*&pika::execution::this_thread::detail::yield_k\s*:\s*&pika::execution::this_thread::detail::spin_k;",
+        r"int \1 = allow_timed_suspension ? KIND_YIELD_K : KIND_SPIN_K;", 1),
+    Sub(r"\bpredicate\(\)", "pred_call()", None),
+    Sub(r"\byield_or_spin\((\w+), (\w+)\);", r"yield_or_spin_call(yield_or_spin, \1, \2);", None),
+]
+LOOP_YWC = ("__CPROVER_assigns(k, count, g_consec, g_reads, g_yields, g_yield_kind)\n"
+            "__CPROVER_loop_invariant(count == g_consec && count <= required_count && (g_yields >= 1 ==> g_yield_kind == yield_or_spin))")
+LOOP_YWCT = ("__CPROVER_assigns(k, count, g_consec, g_reads, g_yields, g_yield_kind, g_timed_out)\n"
+             "__CPROVER_loop_invariant(count == g_consec && count <= required_count && !g_timed_out)")
+UNITS.append(Unit("util.yield_while_count", "ywc.c", defines=["U_YWC"], enforce="yield_while_count", lifts={"body": Lift(TT_HPP,
+    r"void yield_while_count\(Predicate&& predicate, std::size_t required_count,", rules=YWC_RULES, loops={1: LOOP_YWC, "count": 1})},
+    funcs=[TT_HPP + ": pika::util::detail::yield_while_count"], min_obligations=8,
+    doc="I: returns only after more than required_count CONSECUTIVE false readings of the predicate (any sequence of readings)"))
+UNITS.append(Unit("util.yield_while_count_timeout", "ywc.c", defines=["U_YWC_TIMEOUT"], enforce="yield_while_count_timeout", lifts={"body": Lift(TT_HPP,
+    r"bool yield_while_count_timeout\(Predicate&& predicate,", rules=YWC_RULES + [
+        Sub(r"\busing duration_type = [^;]*;", "", None),
+        Sub(r"\bbool const use_timeout = timeout >= duration_type\(0\.0\);", "bool const use_timeout = use_timeout_arg;", 1),
+        Sub(r"\bpika::chrono::detail::high_resolution_timer \w+;", "", None),
+        Sub(r"\bduration_type\(\w+\.elapsed\(\)\) > timeout", "timer_expired()", None),
+    ], loops={1: LOOP_YWCT, "count": 1})},
+    funcs=[TT_HPP + ": pika::util::detail::yield_while_count_timeout"], min_obligations=8,
+    doc="I: true only after more than required_count consecutive false readings; false only after the time-out was seen"))
